@@ -145,6 +145,13 @@ func (x *Exec) heapDefault(epoch int, region string, srt Sort) Term {
 	return t
 }
 
+// noteWrite records a store through reference ref for the syntactic part of the frame check.
+func (x *Exec) noteWrite(ref Term) {
+	if !x.C.AllocatedHere(ref.S) {
+		x.oldWrites++
+	}
+}
+
 func (x *Exec) heapSet(st *State, region string, t Term) {
 	st.Heap[region] = x.C.Name("h_"+region, t)
 }
@@ -267,6 +274,9 @@ func (x *Exec) Load(st *State, p PtrV) (Val, error) {
 		_, hs := x.elemRegion(p.RootT)
 		h := x.heapGet(st, p.Region, hs)
 		arr := Select(h, p.Base)
+		if init, ok := x.roInit[p.Base.S]; ok && p.Base.isConst && init.Sort == arr.Sort {
+			arr = init
+		}
 		if len(p.Path) == 0 {
 			// whole array
 			return x.fromLoaded(st, x.C.Name("ld", arr), elemT), nil
@@ -280,8 +290,13 @@ func (x *Exec) Load(st *State, p PtrV) (Val, error) {
 		return x.fromLoaded(st, x.C.Name("ld", t), elemT), nil
 	}
 	_, hs := x.regionForElem(p.RootT)
-	h := x.heapGet(st, p.Region, hs)
-	t := Select(h, p.Base)
+	var t Term
+	if init, ok := x.roInit[p.Base.S]; ok && p.Base.isConst {
+		t = init
+	} else {
+		h := x.heapGet(st, p.Region, hs)
+		t = Select(h, p.Base)
+	}
 	t, _ = x.readPath(t, p.RootT, p.Path)
 	return x.fromLoaded(st, x.C.Name("ld", t), elemT), nil
 }
@@ -333,6 +348,7 @@ func (x *Exec) Store(st *State, p PtrV, v Val) error {
 			nel := x.writePath(el, p.RootT, p.Path[1:], vt)
 			narr = Store(arr, p.Path[0].Index, nel)
 		}
+		x.noteWrite(p.Base)
 		x.heapSet(st, p.Region, Store(h, p.Base, narr))
 		return nil
 	}
@@ -340,6 +356,7 @@ func (x *Exec) Store(st *State, p PtrV, v Val) error {
 	h := x.heapGet(st, p.Region, hs)
 	obj := Select(h, p.Base)
 	nobj := x.writePath(obj, p.RootT, p.Path, vt)
+	x.noteWrite(p.Base)
 	x.heapSet(st, p.Region, Store(h, p.Base, nobj))
 	return nil
 }
